@@ -281,6 +281,16 @@ pub fn gen_c19_cases(rng: &mut Rng, count: usize, out_path: &str) {
             push(json!({"entry": entry, "value_text": v, "data_text": d, "deser": deser, "tag": "regress"}), &mut f);
         }
     }
+    // texts that are not valid Unicode (unpaired surrogates in a Python str): written raw, since
+    // a Rust String cannot hold them
+    for (vt, dt) in [("\"\\ud800\"", "null"), ("{\"var\": \"a\"}", "{\"a\": \"x\\udc00\"}"), ("{\"cat\": [\"\\ud83d\", \"\\ude00\"]}", "null")] {
+        for deser in ["default", "identity"] {
+            let i = counter.get();
+            counter.set(i + 1);
+            writeln!(f, "{{\"i\": {}, \"entry\": \"apply_serialized\", \"value_text\": {}, \"data_text\": {}, \"deser\": \"{}\", \"tag\": \"not-unicode\"}}",
+                     i, serde_json::to_string(vt).unwrap().replace("\\\\u", "\\u"), serde_json::to_string(dt).unwrap().replace("\\\\u", "\\u"), deser).unwrap();
+        }
+    }
     for (v, d) in [(json!({"var": ""}), json!(0)), (json!({"===": [{"var": ""}, 0]}), json!(0)), (json!({"var": ""}), json!(false)), (json!({"var": ""}), json!("")),
                    (json!({"var": ""}), json!([])), (json!({"var": ""}), json!({})), (json!({"var": ""}), fl(0.0)), (json!({"cat": [{"var": ""}]}), Value::Null)] {
         for mode in ["given", "omit", "none"] {
@@ -382,10 +392,21 @@ pub fn cli_from_plain(rng: &mut Rng, cases: &[(Value, Value, String)]) -> Vec<Em
 /// another property's apply(rule, data) cases, as calls of the Python module
 pub fn py_cases_from_plain(cases: &[(Value, Value, String)], out_path: &str) {
     let mut f = std::io::BufWriter::new(std::fs::File::create(out_path).unwrap());
+    let mut n = 0usize;
     for (i, (rule, data, tag)) in cases.iter().enumerate() {
         let c = json!({"i": i, "entry": "apply", "value_json": rule.to_string(), "data_json": data.to_string(),
                        "data_mode": "given", "ser": "default", "deser": if i % 2 == 0 { "default" } else { "identity" },
                        "tag": format!("py:{}", tag)});
+        writeln!(f, "{}", c).unwrap();
+        n = i + 1;
+    }
+    // a call leaves its arguments as they were - also when they hold values JSON cannot spell
+    for (k, (vpy, dpy)) in [
+        ("{'if': [{'var': 'reading.ok'}, {'var': 'reading.temp'}, 'n/a']}", "{'reading': {'temp': float('nan'), 'ok': True}, 'history': [1.5, float('inf')]}"),
+        ("{'<': [{'var': 'x'}, float('inf')]}", "{'x': 1}"), ("{'var': 'a'}", "{'a': [float('-inf'), (1, 2)], 1: 'one'}"), ("{'cat': [{'var': ''}]}", "float('nan')"),
+    ].iter().enumerate() {
+        let c = json!({"i": n + k, "entry": "apply", "value_py": vpy, "data_py": dpy, "value_json": "null", "data_json": "null", "data_mode": "given", "ser": "default",
+                       "deser": if k % 2 == 0 { "default" } else { "identity" }, "tag": "py:unmodified-arguments"});
         writeln!(f, "{}", c).unwrap();
     }
 }
